@@ -80,14 +80,37 @@ Proof. exact imprecise_amount_rejected. Qed.
     verifies the signature over exactly SHA-256(hrp ‖ bytes of the timestamp and fields). *)
 Theorem C18_signed_content :
   forall (hash pubkey : Type) (sha : list Z -> hash) (verify : hash -> list Z -> pubkey -> bool)
-         (recover : hash -> list Z -> Z -> option pubkey) (payee_of_fields : list field -> option pubkey),
+         (recover : hash -> list Z -> Z -> option pubkey) (decode_pk : list Z -> option pubkey),
   (forall h sg rid pk, recover h sg rid = Some pk -> verify h sg pk = true) ->
   forall s : signed_raw,
-    check_signature hash pubkey sha verify recover payee_of_fields s = true ->
+    check_signature hash pubkey sha verify recover decode_pk s = true ->
     exists pk,
-      payee_pub_key hash pubkey sha recover payee_of_fields s = Some pk /\
+      payee_pub_key hash pubkey sha recover decode_pk s = Some pk /\
       verify (sha (signable_bytes (print_hrp (sr_hrp s)) (ser_data (sr_ts s) (sr_fields s)))) (sr_sig s) pk = true.
 Proof. exact signed_content. Qed.
+
+(** The field list may contain any number of [n] fields (and fields of tag 19 with another length):
+    the FIRST 53-symbol one is the key the signature is checked against AND the key reported. *)
+Theorem C18_signed_content_first_n :
+  forall (hash pubkey : Type) (sha : list Z -> hash) (verify : hash -> list Z -> pubkey -> bool)
+         (recover : hash -> list Z -> Z -> option pubkey) (decode_pk : list Z -> option pubkey)
+         (s : signed_raw) pre d post pk,
+    sr_fields s = pre ++ (TAG_PAYEE_PUB_KEY, d) :: post -> List.length d = 53%nat ->
+    (forall f, In f pre -> is_payee_field f = false) -> decode_pk d = Some pk ->
+    check_signature hash pubkey sha verify recover decode_pk s = true ->
+    payee_pub_key hash pubkey sha recover decode_pk s = Some pk /\
+    verify (sha (signable_bytes (print_hrp (sr_hrp s)) (ser_data (sr_ts s) (sr_fields s)))) (sr_sig s) pk = true.
+Proof. exact signed_content_first_n. Qed.
+
+Theorem C18_signed_content_recovered :
+  forall (hash pubkey : Type) (sha : list Z -> hash) (verify : hash -> list Z -> pubkey -> bool)
+         (recover : hash -> list Z -> Z -> option pubkey) (decode_pk : list Z -> option pubkey)
+         (s : signed_raw),
+    (forall f, In f (sr_fields s) -> is_payee_field f = false) ->
+    check_signature hash pubkey sha verify recover decode_pk s = true ->
+    exists pk, recover (signable_hash hash sha s) (sr_sig s) (sr_rid s) = Some pk /\
+               payee_pub_key hash pubkey sha recover decode_pk s = Some pk.
+Proof. exact signed_content_recovered. Qed.
 
 (** the signed symbols determine timestamp and fields *)
 Theorem C18_signed_data_injective : forall ts fs ts' fs',
